@@ -205,6 +205,9 @@ func (g *gen) hs() uint16 {
 	if g.theme == "hsmig" && g.n(10) < 7 {
 		return 3 // the hash slot the fence / outbox commands of this family address
 	}
+	if g.theme != "" && g.n(10) < 6 {
+		return 1 // themed logs concentrate on one hash slot so that consecutive commands meet
+	}
 	switch r := g.n(100); {
 	case r < 60:
 		return 1
@@ -214,13 +217,23 @@ func (g *gen) hs() uint16 {
 		return 3
 	}
 }
-func (g *gen) uid() string { return []string{"u1", "u2", "u3"}[g.n(3)] }
+func (g *gen) uid() string {
+	if g.theme != "" && g.n(10) < 5 {
+		return "u1"
+	}
+	return []string{"u1", "u2", "u3"}[g.n(3)]
+}
 func (g *gen) uids() []string {
 	all := []string{"u1", "u2", "u3", "u4"}
 	g.rng.Shuffle(len(all), func(i, j int) { all[i], all[j] = all[j], all[i] })
 	return all[:1+g.n(3)]
 }
-func (g *gen) group() string  { return []string{"ga", "gb"}[g.n(2)] }
+func (g *gen) group() string {
+	if g.theme != "" && g.n(10) < 5 {
+		return "ga"
+	}
+	return []string{"ga", "gb"}[g.n(2)]
+}
 func (g *gen) person() string { return channelid.EncodePersonChannel("u1", []string{"u2", "u3"}[g.n(2)]) }
 func (g *gen) tok() string    { return fmt.Sprintf("t%d", g.n(4)) }
 
@@ -323,7 +336,7 @@ func migration(g *gen) (uint16, []byte, string) {
 		meta = metadb.ChannelRuntimeMeta{ChannelID: ch, ChannelType: ct, ChannelEpoch: 10, LeaderEpoch: 20}
 	}
 	task, active, _ := st.GetActiveChannelMigrationTask(bg, ch, ct)
-	if !active || g.n(8) == 0 {
+	if !active || g.n(5) == 0 {
 		tid := fmt.Sprintf("T%d", g.n(4))
 		t := metadb.ChannelMigrationTask{TaskID: tid, Kind: metadb.ChannelMigrationKindReplicaReplace, Status: metadb.ChannelMigrationStatusPending,
 			Phase: metadb.ChannelMigrationPhaseValidate, ChannelID: ch, ChannelType: ct, SourceNode: 2, TargetNode: 4, DesiredLeader: 1,
@@ -576,7 +589,7 @@ var generators = []weighted{
 		inner := fsm.EncodeUpsertUserCommand(metadb.User{UID: g.uid(), Token: g.tok()})
 		return hs, fsm.EncodeApplyDeltaCommand(9, uint64(1+g.n(3)), hs, inner), "ApplyDelta"
 	}},
-	{1, func(g *gen) (uint16, []byte, string) { return 3, fsm.EncodeEnterFenceCommandForTarget(3, 9), "EnterFence" }},
+	{3, func(g *gen) (uint16, []byte, string) { return 3, fsm.EncodeEnterFenceCommandForTarget(3, 9), "EnterFence" }},
 	{1, func(g *gen) (uint16, []byte, string) {
 		return 3, fsm.EncodeAckHashSlotMigrationOutboxCommand(3, slotID, 9, uint64(1+g.n(6))), "AckMigrationOutbox"
 	}},
@@ -923,6 +936,23 @@ type replica struct {
 	rng   *rand.Rand
 	mmb   bool // the last ApplyBatch carried >= 2 channel-migration task commands of one channel
 	ahead string // set when the durable applied index was found above every entry ever fed
+	cib   int    // hash slot h+1 if the last ApplyBatch carried CleanupMigrationOutbox(h) followed by another command for h (0 = no)
+}
+
+// cleanupThenCommand: does the batch hold a hash-slot-migration cleanup command that is
+// followed, in the same batch, by another command for the same hash slot?  Returns hs+1 or 0.
+func cleanupThenCommand(cmds []cmdRec, from, to int) int {
+	for i := from; i <= to; i++ {
+		d := cmds[i].Data
+		if len(d) >= 2 && d[0] == 1 && d[1] == 23 {
+			for j := i + 1; j <= to; j++ {
+				if cmds[j].HashSlot == cmds[i].HashSlot {
+					return int(cmds[i].HashSlot) + 1
+				}
+			}
+		}
+	}
+	return 0
 }
 
 func isChannelMigrationCmd(data []byte) bool { return len(data) >= 2 && data[0] == 1 && data[1] >= 30 && data[1] <= 41 }
@@ -1029,6 +1059,7 @@ func (r *replica) applyBatch(from, to int) stepOut {
 	}
 	out.called = true
 	r.mmb = multiMigrationBatch(r.cl.cmds, f, to)
+	r.cib = cleanupThenCommand(r.cl.cmds, f, to)
 	_, err, pan := r.w.apply(r.cl.cmds, f, to)
 	out.pan, out.applyE = pan, err
 	if pan != nil || err != nil {
@@ -1149,7 +1180,29 @@ func (h *harness) finish(r *replica, replay map[string]any) bool {
 // Cause: commit-time operations of pkg/db/meta (stageUpsertChannelMigrationTask, ensureChannelMigrationActiveAvailable,
 // DeleteTerminalChannelMigrationTasksBefore) read the committed database instead of the batch overlay, and the stage-time
 // reservation Batch.migrationActive is never released.
+//
+// Known finding "hashslot-migration-cleanup-then-command-batch": matched only when the ApplyBatch
+// that was just executed carried CleanupMigrationOutbox(h) followed by another command for hash
+// slot h AND every differing key belongs to hash slot h.  Reproduction (slot 7 owning {1,2,3}):
+//   Apply(EnterFenceForTarget(3, 9)) at index 1, then
+//   (a) ApplyBatch([Cleanup(3, 7, 9, through 1), EnterFenceForTarget(3, 9)]): the second fence is a no-op (no state, no outbox row);
+//       one at a time it creates the migration state and its outbox row.
+//   (b) ApplyBatch([Cleanup(3, 7, 9, through 1), UpsertUser for hash slot 3]): the write is answered hash_slot_fenced and dropped;
+//       one at a time it is applied.
+// Cause: applyMigrationOutboxCleanup deletes the state from the batch-local pendingStates map instead of leaving a tombstone,
+// so later commands of the batch load the still-committed (fenced) state from the database.
 func (r *replica) sigFor(want, got []byte) string {
+	if r.cib != 0 {
+		all := true
+		for _, k := range diffKeys(want, got) {
+			if len(k) < 4 || int(binary.BigEndian.Uint16([]byte(k[2:4]))) != r.cib-1 {
+				all = false
+			}
+		}
+		if all {
+			return "hashslot-migration-cleanup-then-command-batch"
+		}
+	}
 	tabs := diffTables(want, got)
 	only9 := len(tabs) > 0
 	for _, t := range tabs {
@@ -1566,7 +1619,7 @@ func TestVerifSlotFSM(t *testing.T) {
 		h.replayBehaviour(bi, b)
 	}
 
-	traces := env.Pick(40, 400)
+	traces := env.Pick(60, 500)
 	for i := 0; i < traces; i++ {
 		h.drive(rec)
 	}
